@@ -65,3 +65,42 @@ func (e *Engine) callsiteUnused(st *State, c *Contract) {
 		e.emit(st, "pre", "callsite@"+nm+"#unused", "false", "callsite clause for "+nm+" matched no call of the verified function (the clause asserts nothing)")
 	}
 }
+
+// callSiteEns: `callsite <Func> ensures <expr>` clauses of the function under
+// verification: assumed about the results of every call of a function of that
+// name (r0.. = results, recv / a0.. = receiver and arguments). For functions
+// outside the verifier (sync.Pool.Get ...); every clause used is reported as
+// an assumption.
+func (e *Engine) callSiteEns(st *State, nm string, hasRecv bool, args []*Val, res *Val) {
+	if len(st.frames) == 0 || st.frames[0].contract == nil {
+		return
+	}
+	cls := st.frames[0].contract.CallSiteEns[nm]
+	if len(cls) == 0 {
+		return
+	}
+	env := e.envFor(st, st.top())
+	env.useVars = true
+	env.old = st.frames[0].entry
+	i0 := 0
+	if hasRecv && len(args) > 0 {
+		env.names["recv"] = args[0]
+		i0 = 1
+	}
+	for i := i0; i < len(args); i++ {
+		env.names[fmt.Sprintf("a%d", i-i0)] = args[i]
+	}
+	if res != nil {
+		if res.Tup != nil {
+			for i, r := range res.Tup {
+				env.names[fmt.Sprintf("r%d", i)] = r
+			}
+		} else {
+			env.names["r0"] = res
+		}
+	}
+	for _, cl := range cls {
+		st.assume(e.evalBool(env, cl))
+		e.Assumed["assumed about the result of "+nm+" (callsite ensures): "+cl.Text] = true
+	}
+}
